@@ -15,8 +15,10 @@ Inductive status := SCont | SStop | SFail (e : err) | SFuel.
 Definition keep (now : Z) (it : item) (rest : list item) : list item :=
   if expired_at now (fst it) then rest else it :: rest.
 
-(* the for-loop of LoadAofFile (aof.go:1486-1535) with the LoadAndInit iterator (always (true, nil)) *)
-Fixpoint load_loop (fx : fixes) (now : Z) (fuel : nat) (r : rd) (dat : option bytes) (lbuf : bytes)
+(* the for-loop of LoadAofFile (aof.go:1486-1535) with the LoadAndInit iterator (always (true, nil)); [dr] = the buffered
+   reader of the value file ([None] = the .dat file could not be opened), values are read by the byte-exact
+   AofFile.read_data_b *)
+Fixpoint load_loop (fx : fixes) (now : Z) (fuel : nat) (r : rd) (dr : option rd) (lbuf : bytes)
   : list item * status * bytes :=
   match fuel with
   | O => ([], SFuel, lbuf)
@@ -26,18 +28,20 @@ Fixpoint load_loop (fx : fixes) (now : Z) (fuel : nat) (r : rd) (dat : option by
     | (Some e, lbuf', _) => ([], SFail e, lbuf')
     | (None, lbuf', r') =>
       if has_data lbuf' then
-        match read_data dat with
+        match read_data_b dr with
         | inr EOF => ([], SStop, lbuf')
+        | inr EFuel => ([], SFuel, lbuf')
         | inr e => ([], SFail e, lbuf')
-        | inl (v, dat') =>
-          let '(its, st, lb) := load_loop fx now f r' dat' lbuf' in (keep now (lbuf', Some v) its, st, lb)
+        | inl (v, dr') =>
+          let '(its, st, lb) := load_loop fx now f r' (Some dr') lbuf' in (keep now (lbuf', Some v) its, st, lb)
         end
       else
-        let '(its, st, lb) := load_loop fx now f r' dat lbuf' in (keep now (lbuf', None) its, st, lb)
+        let '(its, st, lb) := load_loop fx now f r' dr lbuf' in (keep now (lbuf', None) its, st, lb)
     end
   end.
 
-(* LoadAofFile: Open in read mode (missing .dat tolerated), ReadHeader, loop *)
+(* LoadAofFile: Open in read mode (missing .dat tolerated), ReadHeader, loop; the value file is read through a bufio
+   reader of bs*64 bytes (AofFile.dat_rd) *)
 Definition load_file (fx : fixes) (bs : nat) (now : Z) (aof dat : option bytes) (lbuf : bytes)
   : list item * status * bytes :=
   match aof with
@@ -46,7 +50,7 @@ Definition load_file (fx : fixes) (bs : nat) (now : Z) (aof dat : option bytes) 
     match read_header fx (new_rd bs a) with
     | (Some EOF, _) => ([], SStop, lbuf)
     | (Some e, _) => ([], SFail e, lbuf)
-    | (None, r) => load_loop fx now (S (length a)) r dat lbuf
+    | (None, r) => load_loop fx now (S (length a)) r (option_map (dat_rd bs) dat) lbuf
     end
   end.
 
